@@ -11,6 +11,7 @@ import (
 )
 
 type Clause struct {
+	Assumed bool // not an obligation of the function itself (checked by a bounded stand-in); used by callers
 	Label string
 	Tags  []string // property ids; empty = all properties of the function
 	Expr  SExpr
@@ -63,6 +64,7 @@ type FuncContract struct {
 	Decreases SExpr
 	Roles     map[string]string // param name → role
 	Ghost     []SpecParam
+	GhostRet  []SpecParam // ghost results: locals of the callee, existential for callers
 	GhostArgs map[string]map[string]SExpr // "callee#n" → ghost name → expr
 	Loops     map[int]*LoopSpec
 	Uses      []string
@@ -154,6 +156,10 @@ func parseClause(text string) (*Clause, error) {
 			}
 			t = strings.TrimSpace(t[end+1:])
 		}
+	}
+	if strings.HasPrefix(t, "[assumed]") {
+		c.Assumed = true
+		t = strings.TrimSpace(t[9:])
 	}
 	if m := regexp.MustCompile(`^([A-Za-z_][A-Za-z0-9_]*)\s*:([^:=].*|$)`).FindStringSubmatch(t); m != nil {
 		c.Label = m[1]
@@ -439,6 +445,12 @@ func parseContractText(text, path, importPath string) (pc *PkgContracts, err err
 						panic(er)
 					}
 					cur.Decreases = e
+				case "ghostret":
+					p, e := newParser("(" + rest + ")")
+					if e != nil {
+						panic(e)
+					}
+					cur.GhostRet = append(cur.GhostRet, parseParams(p)...)
 				case "pure":
 					cur.Pure = true
 				case "uses":
